@@ -118,7 +118,49 @@ def oracle(case) -> Result:
             return res
         if any(w != 0 for w in winners.values()):
             nontrivial = True
+    # 'every value of the coefficients' includes ties (the construction-time uniform vector is one):
+    # export and the hard SuperNet must then still pick the SAME maximal branch
+    for mode in ('uniform', 'partial'):
+        with torch.no_grad():
+            for nid, comb in su.combiners(sn).items():
+                n = comb.n_branches
+                if mode == 'uniform':
+                    comb.alpha.fill_(1.0 / n)
+                else:
+                    g = ng._gen(case['aseed'], 'ties/' + nid)
+                    v = torch.rand(n, generator=g) * 0.5
+                    tied = torch.randperm(n, generator=g)[:max(2, n // 2)]
+                    v[tied] = 0.75
+                    comb.alpha.copy_(v)
+        exported = must(res, 'export', sn.export)
+        with torch.no_grad():
+            y_sn = must(res, 'supernet-forward', sn, x)
+        if exported is None or y_sn is None:
+            return res
+        exported.eval()
+        with torch.no_grad():
+            y_exp = must(res, 'exported-forward', exported, x)
+        if y_exp is None:
+            return res
+        scale = 1.0 + float(y_sn.abs().max())
+        if y_exp.shape != y_sn.shape or float((y_exp - y_sn).abs().max()) > TOL * scale:
+            res.bad('exported-output-differs-from-hard-supernet', tie=mode,
+                    max_abs=float((y_exp - y_sn).abs().max()) if y_exp.shape == y_sn.shape
+                    else 'shape')
+        names = [k for k, m in exported.named_modules()]
+        for b in blocks:
+            comb = su.combiners(sn)[b['id']]
+            top = float(comb.alpha.max())
+            maximal = {str(i) for i in range(comb.n_branches) if float(comb.alpha[i]) == top}
+            pre = f"layers.{b['id']}.sn_branches."
+            kept = {k[len(pre):].split('.')[0] for k in names if k.startswith(pre)}
+            if len(kept) > 1 or not kept <= maximal:
+                res.bad('exported-block-branches', tie=mode, block=b['id'], kept=sorted(kept),
+                        maximal=sorted(maximal))
+        if res.discrepancies:
+            return res
     res.nontrivial = nontrivial
+    res.ev('tied-coefficients')
     res.ev(*ng.spec_features(spec))
     res.ev('export-before-and-after-forward', 'winners:exhaustive' if exhaustive else 'winners:sampled',
            f"blocks:{len(blocks)}")
@@ -149,7 +191,9 @@ CHECK = Check(
           "winning branches when there are <= 64, otherwise the drawn combination plus every "
           "single-block variation. Oracle: exported network vs (a) the SuperNet in eval mode with "
           "hard selection and (b) a reference network built from the same specification keeping "
-          "only the winning branch (same weights), plus module tree and bit-equal parameters. "
+          "only the winning branch (same weights), plus module tree and bit-equal parameters; then "
+          "two tied coefficient vectors (uniform, partial tie at the maximum): export vs hard "
+          "SuperNet, one kept branch, among the maximal ones. "
           "Non-trivial = some winner is not branch 0; distinct by case hash."),
     assumptions=[
         "tolerance max|diff| <= 1e-5*(1+max|y|) between SuperNet (weighted sum with a one-hot) and "
